@@ -90,4 +90,5 @@ def main():
     json.dump(out, open(sys.argv[2], "w"))
 
 
-main()
+if __name__ == "__main__":
+    main()
